@@ -119,7 +119,8 @@ where
         let t = if s == F::infinity() {
             F::one()
         } else if s != F::one() {
-            (n.powf(F::one() - s) - s) * q
+            // (n^(1-s) - s) / (1-s) = 1 + (n^(1-s) - 1) / (1-s), without cancellation for s close to 1
+            F::one() + ((F::one() - s) * n.ln()).exp_m1() * q
         } else {
             F::one() + n.ln()
         };
@@ -135,7 +136,9 @@ where
         if pt <= one {
             pt
         } else if self.s != one {
-            (pt * (one - self.s) + self.s).powf(self.q)
+            // (pt (1-s) + s)^(1/(1-s)) = (1 + (pt-1)(1-s))^(1/(1-s)), without amplifying the rounding
+            // of the base for s close to 1
+            (((pt - one) * (one - self.s)).ln_1p() * self.q).exp()
         } else {
             (pt - one).exp()
         }
